@@ -379,6 +379,39 @@ def run_block(ctx, name, lines, sessions, do_shrink=True):
     return out1
 
 
+def run_records(ctx, quick):
+    """BookNode::serialize / deSerialize: differential + round trip evaluated on the implementation's outputs."""
+    r = ctx.rng
+    n = 400 if quick else 20000
+    recs = []
+    for _ in range(n):
+        key = r.choice([0, 1, (1 << 64) - 1, r.getrandbits(64), r.getrandbits(8)])
+        cm = r.choice([0, 65535, r.randrange(65536)])
+        sc = r.choice([-32768, 32767, -1, 0, INVALID, IGNORE, r.randrange(-32768, 32768)])
+        tm = r.choice([0, 1, 4294967295, r.getrandbits(32)])
+        recs.append((key, cm, sc, tm))
+    ser = [f"bookrec ser {hex(k)} {c} {s_} {t}" for k, c, s_, t in recs]
+    bdir = vlib.cxx_build("plain", ("vharness",))
+    rc, out, err = vlib.run_lines(os.path.join(bdir, "vharness"), ser)
+    if rc != 0 or len(out) != len(ser):
+        ctx.violation("harness died on bookrec ser", {"kind": "impl-crash", "input": ser[:len(out) + 1][-5:], "stderr": err}); return
+    deser = [f"bookrec deser {o}" for o in out if len(o) == 32]
+    rnd = ["bookrec deser " + "".join(r.choice("0123456789abcdef") for _ in range(32)) for _ in range(n // 2)]
+    bad_in = ["bookrec deser 00", "bookrec deser " + "g" * 32, "bookrec ser 1 2 3", "bookrec ser 1 70000 0 0", "bookrec ser 1 0 40000 0", "bookrec"]
+    lines = ser + deser + rnd + bad_in
+    out1, out2, mis = vlib.diff_lines(ctx, "record-kernels", lines)
+    ctx.count(len(lines))
+    if len(out1) != len(lines): return
+    for (k, c, s_, t), o in zip(recs, out1[len(ser):len(ser) + len(deser)]):
+        if o != f"{hex(k)} {c} {s_} {t}":
+            ctx.violation(f"record round trip: wrote ({hex(k)},{c},{s_},{t}), read back `{o}`",
+                          {"kind": "property-predicate", "tie": "record-kernels", "input": [f"bookrec ser {hex(k)} {c} {s_} {t}"], "impl_output": o})
+            break
+    if mis is not None and not ctx.violations:
+        ctx.violation(f"record-kernels: model and implementation disagree on `{lines[mis]}`: impl `{out1[mis]}` model `{out2[mis]}`",
+                      {"kind": "correspondence", "tie": "record-kernels", "theorem_scope": "Props/C19.lean record_roundtrip", "input": [lines[mis]]}, no_input=True)
+
+
 def plan_for(r, tier):
     if tier == "quick":
         return ([("mix", r.randrange(30, 200)) for _ in range(500)] + [("score", r.randrange(40, 300)) for _ in range(300)] +
@@ -427,6 +460,7 @@ def run(ctx):
     mal.append("book dump")
     lines = WITNESS + mal
     run_block(ctx, "corpus-and-malformed", lines, [(0, len(WITNESS)), (len(WITNESS), len(lines))])
+    run_records(ctx, quick)
     # random histories
     gen_lines, gs = [], []
     for style, nops in plan_for(r, ctx.tier):
